@@ -599,7 +599,11 @@ def run_sim(c, count):
     try:
         lines, cases = [], []
         for ci in range(count):
-            ls, cs = sim_case(c, c.rng, folder, ci)
+            try:
+                ls, cs = sim_case(c, c.rng, folder, ci)
+            except Exception as e:  # the implementation rejects a valid delay model
+                c.fail("simulation of a model with delay() raised %s" % type(e).__name__, {"case": ci, "error": str(e)[:300]})
+                continue
             lines += ls
             cases += cs
         outs = c.model(lines)
